@@ -37,11 +37,22 @@ func doLZ4Encode(data []byte, level int) ([]byte, error) {
 }
 
 func doLZ4Decode(buf []byte) ([]byte, error) {
-	dst := make([]byte, 10*len(buf))
-	n, err := lz4.UncompressBlock(buf, dst)
-	if err != nil {
-		return nil, err
+	// lz4 block并不保存原始数据长度，而其最大压缩比约为255，
+	// 因此先按10倍分配，空间不足时逐步扩大至255倍后重试
+	maxSize := 255 * len(buf)
+	size := 10 * len(buf)
+	for {
+		dst := make([]byte, size)
+		n, err := lz4.UncompressBlock(buf, dst)
+		if err == nil {
+			return dst[:n], nil
+		}
+		if err != lz4.ErrInvalidSourceShortBuffer || size >= maxSize {
+			return nil, err
+		}
+		size *= 4
+		if size > maxSize {
+			size = maxSize
+		}
 	}
-	dst = dst[:n]
-	return dst, nil
 }
